@@ -8,15 +8,15 @@ Only property theorems + non-vacuity examples; proofs in `Lemmas/C01.lean`.
 namespace PhyVerif.C01
 open PhyVerif
 
-/-- Main theorem: for every layout (any number of non-empty parts of any lengths, rows of any
-type) and every in-domain index expression (integer in [-n, n), unit-step slice with bounds in
+/-- Main theorem: for every layout (any number of parts of any lengths — the proof does not even
+need them to be non-empty —, rows of any type) and every in-domain index expression (integer in [-n, n), unit-step slice with bounds in
 [-n, n] ∪ {None} selecting ≥ 1 row, non-empty strictly increasing index list within [0, n)),
 splitting the index over the parts, reading each part and stacking returns exactly what NumPy
 indexing returns on the concatenation. -/
-theorem getRows_eq_concat {α : Type} (parts : List (List α)) (hp : parts ≠ [])
-    (hne : ∀ p ∈ parts, p ≠ []) (it : Item) (hd : InDom parts.flatten.length it) :
+theorem getRows_eq_concat {α : Type} (parts : List (List α)) (it : Item)
+    (hd : InDom parts.flatten.length it) :
     getRows parts it = npRows parts.flatten it :=
-  Lemmas.getRows_eq_concat parts hp hne it hd
+  Lemmas.getRows_eq_concat' parts it hd
 
 /-- … and in-domain NumPy indexing does not raise and selects at least one row
 (so the equality above is not `none = none`). -/
@@ -26,10 +26,11 @@ theorem npRows_some {α : Type} (A : List α) (it : Item) (hd : InDom A.length i
 
 /-- With a channel selector: the rows NumPy returns, each restricted to the selected columns
 (outer indexing `A[item][:, cols]`). -/
-theorem getItem_eq_concat {β : Type} (parts : List (List (List β))) (hp : parts ≠ [])
-    (hne : ∀ p ∈ parts, p ≠ []) (it : Item) (c : ColSel) (hd : InDom parts.flatten.length it) :
-    getItem parts it c = (npRows parts.flatten it).map fun rows => rows.map (selCols c) :=
-  Lemmas.getItem_eq_concat parts hp hne it c hd
+theorem getItem_eq_concat {β : Type} (parts : List (List (List β))) (it : Item) (c : ColSel)
+    (hd : InDom parts.flatten.length it) :
+    getItem parts it c = (npRows parts.flatten it).map fun rows => rows.map (selCols c) := by
+  unfold getItem
+  rw [Lemmas.getRows_eq_concat' parts it hd]
 
 /-- the reader's sample count is the length of the concatenation -/
 theorem nSamples_eq {α : Type} (parts : List (List α)) :
